@@ -73,7 +73,7 @@ def cases(tier, sd):
     # directed family sweeps: every key of one guard family, in two random
     # orders back to back (all intra-family "x cached, then y derived from it,
     # then x again" situations), no eviction and eviction at every step
-    reps = 1 if tier == "quick" else 5
+    reps = 3 if tier == "quick" else 8
     for rep in range(reps):
         for fi, fam in enumerate(H.FAMILIES):
             vac = bool((fi + rep) % 4 == 3)
@@ -87,6 +87,17 @@ def cases(tier, sd):
                                        gb=(1e9 if (fi + rep) % 3 == 0 else 8.0 * 216 / 1024 ** 3 * 60),
                                        importance=None),
                             length=0, family=fam, hseed=int(rng.integers(1 << 30))))
+    # "only the components of one tensor are left" states, one case per family
+    for fi, fam in enumerate(H.FAMILIES):
+        F = [k for k in H.FAMILIES[fam] if k in H.all_keys()]
+        if not component_groups(F):
+            continue
+        out.append(dict(kind='groups', family=fam, offshell=True,
+                        member=dict(family=S.ADMTrig.name, seed=int(rng.integers(1 << 20)), period=2.0),
+                        style=['tensor', 'components'][fi % 2], vacuum=False, Lambda=0.2, tetrad=None,
+                        center=None, n1=6, order=2, mode='periodic', noncubic=None,
+                        cache=dict(every=10 ** 6, gb=1e9, importance=None),
+                        length=0, hseed=int(rng.integers(1 << 30))))
     # ordered pairs of related keys, each on its own eviction-free instance
     nch = 16 if tier == "quick" else 64
     for c in range(nch):
@@ -177,7 +188,7 @@ def run_walk(spec, n, ops, scale_gb=1.0, fresh_for=None, ledger=None, audit=None
             else:
                 trace[f"{q.split('.')[-1]}:+{l}"] = trace.get(f"{q.split('.')[-1]}:+{l}", 0) + c
     for rec in recs:
-        if fresh_for is not None and rec['i'] not in fresh_for:
+        if (fresh_for is not None and rec['i'] not in fresh_for) or rec['op'][0] in ('evict', 'keep'):
             continue
         k = rec['op']
         if k not in fresh_cache:
@@ -224,16 +235,52 @@ def run_pairs(spec):
     return res
 
 
+def component_groups(F):
+    """Sets of keys of one family that are the components of one tensor."""
+    import re
+    g = {}
+    for k in F:
+        m = re.match(r'^(.*?)(xx|xy|xz|yy|yz|zz|x|y|z)(_norm)?$', k)
+        if m and m.group(1):
+            g.setdefault((m.group(1), m.group(3) or ''), []).append(k)
+    return [sorted(v) for v in g.values() if len(v) >= 3]
+
+
+def run_groups(spec):
+    """Cache states in which only the components of ONE tensor of a family
+    survive a clean-up (the tensor they came from, and everything else, gone):
+    every key of the family is then requested and must equal its fresh value."""
+    res = common.new_result(spec)
+    keys = H.all_keys()
+    F = [k for k in H.FAMILIES[spec['family']] if k in keys]
+    shared, shared2 = {}, {}
+    for G in component_groups(F):
+        for target in F:
+            if target in G:
+                continue
+            ops = [('key', k) for k in G] + [('keep', tuple(G)), ('key', target)]
+            judge(res, spec, ops, None, shared, shared2, pair=True, nskip=len(G) + 1, exact=True)
+            res['monitor']['group_states'] = res['monitor'].get('group_states', 0) + 1
+    return res
+
+
 def run_case(spec):
     if spec.get('kind') == 'pairs':
         return run_pairs(spec)
+    if spec.get('kind') == 'groups':
+        return run_groups(spec)
     res = common.new_result(spec)
     keys = H.all_keys()
     rng = np.random.default_rng([int(spec['hseed']), 3])
     ops = H.gen_history(rng, spec['length'], keys)
     if spec.get('family'):
         F = [k for k in H.FAMILIES[spec['family']] if k in keys]
+        # (between the passes half of what is cached is evicted: states such as
+        #  "components cached, the tensor they came from gone")
         ops = [('key', F[i]) for i in rng.permutation(len(F))] + \
+              [('evict', int(rng.integers(1 << 30)))] + \
+              [('key', F[i]) for i in rng.permutation(len(F))] + \
+              [('evict', int(rng.integers(1 << 30)))] + \
               [('key', F[i]) for i in rng.permutation(len(F))]
     # "x, y, x" triplets inside one guard family: the second x is a cache hit
     # that must still equal the fresh value after y was computed from it
@@ -243,12 +290,15 @@ def run_case(spec):
         x, y = F[int(rng.integers(len(F)))], F[int(rng.integers(len(F)))]
         pos = int(rng.integers(len(ops) + 1))
         ops[pos:pos] = [('key', x), ('key', y), ('key', x)]
+    if spec['hseed'] % 2 == 0 and not spec.get('family'):
+        for _ in range(int(rng.integers(1, 4))):
+            ops.insert(int(rng.integers(1, len(ops) + 1)), ('evict', int(rng.integers(1 << 30))))
     trace = {}
     judge(res, spec, ops, trace if spec['hseed'] % 3 == 0 else None)
     return res
 
 
-def judge(res, spec, ops, trace, shared=None, shared2=None, pair=False):
+def judge(res, spec, ops, trace, shared=None, shared2=None, pair=False, nskip=1, exact=False):
     p = spec['order']
     recs, events, counters, _ = run_walk(spec, spec['n1'], ops, trace=trace, fresh_cache=shared)
     for k, v in counters.items():
@@ -257,12 +307,14 @@ def judge(res, spec, ops, trace, shared=None, shared2=None, pair=False):
     if trace is not None:
         res['monitor']['arms'] = {k: v for k, v in trace.items()}
     if pair:
-        recs = recs[1:]          # the first request of a pair is a fresh request itself
-    if len(recs) < len(ops) - (1 if pair else 0):
+        recs = recs[nskip:]      # the leading requests of a pair / group state are fresh requests themselves
+    if len(recs) < len(ops) - (nskip if pair else 0):
         res['monitor']['walks_truncated_by_work_cap'] = 1
         res['notes'].append(f"walk stopped after {len(recs)} of {len(ops)} requests (work cap)")
     cands = []
     for r in recs:
+        if r['op'][0] in ('evict', 'keep'):
+            continue
         res['observations'] += 1
         fs, fv = r['fresh']
         name = r['op'][1] if r['op'][0] == 'key' else 'helper ' + r['op'][1]
@@ -287,6 +339,12 @@ def judge(res, spec, ops, trace, shared=None, shared2=None, pair=False):
                 res['nontrivial'].append(['pair', ops[0][1], name])
             elif r['evictions_before'] > 0:
                 res['nontrivial'].append([name, common.jhash(sorted(r['cached'])), r['hit']])
+            continue
+        if exact:
+            # off-shell inputs: no alternative derivation is allowed to differ
+            common.add_violation(res, f"{name} differs from fresh instance",
+                                 {"history": [o[1] for o in ops[:r['i'] + 1]], "err": err, "scale": sc,
+                                  "inputs": "matter not sourcing the geometry (round-off agreement required)"})
             continue
         cands.append(r)
     if cands:
